@@ -73,6 +73,8 @@ class DataModels:
             if attr == 'length':
                 return b.length
             raise Unsupported('stream attribute %s' % attr)
+        if isinstance(b, tuple) and attr in getattr(b, '_fields', ()):
+            return getattr(b, attr)           # a member of a concrete namedtuple (a class-level table entry)
         if isinstance(b, (SBytes, SList, SDict, Code, StructRef, SGen, list, dict, str, bytes, tuple, set)) \
                 or is_sym(b):
             if isinstance(b, StructRef) and attr == 'name':
